@@ -218,7 +218,8 @@ def snippet(rng, words, depth=0):
         body = (p * (1 + 520 // max(1, len(p))))[:520]
         return b"[Byte[]] $b = " + b",".join(b"%d" % c for c in body)
     if k == 31:
-        return b"http://evil.example.com/a%2Fb/../c/./d.exe?x=%41"
+        return rng.choice([b"http://evil.example.com/a%2Fb/../c/./d.exe?x=%41", b"%APPDATA%\\Microsoft\\update.exe", b"C:\\Users\\%USERNAME%\\run.dll",
+                           b"%TEMP%\\stage2.exe", b"%SystemRoot%\\System32\\cmd.exe", b"%PUBLIC%\\Documents\\a.exe", b"%HOME%\\x\\y.exe"])
     if k == 16:
         key = rng.choice([7, 35, 77, 128, 255])
         return b'[System.Convert]::FromBase64String("' + base64.b64encode(bytes(c ^ key for c in p)) + b'") -bxor ' + str(key).encode()
@@ -357,7 +358,9 @@ def env_vars(rng):
     out = {}
     for k, choices in (("HOME", ["@scratch", "/nonexistent", "/root"]), ("TMPDIR", ["@scratch", "/tmp"]), ("USER", ["root", "analyst", "nobody"]),
                        ("LANG", ["C", "en_US.UTF-8", "de_DE.UTF-8", "tr_TR.UTF-8"]), ("TZ", ["UTC", "Asia/Tokyo", "America/St_Johns"]),
-                       ("COLUMNS", ["40", "200"]), ("TERM", ["dumb", "xterm-256color"]), ("NO_COLOR", ["1"]), ("PYTHONUTF8", ["1"])):
+                       ("COLUMNS", ["40", "200"]), ("TERM", ["dumb", "xterm-256color"]), ("NO_COLOR", ["1"]), ("PYTHONUTF8", ["1"]),
+                       ("APPDATA", ["C:\\Users\\victim\\AppData\\Roaming", "/srv/appdata"]), ("TEMP", ["C:\\Temp", "/var/tmp"]),
+                       ("USERNAME", ["victim", "svc_scan"]), ("PUBLIC", ["C:\\Users\\Public"]), ("SystemRoot", ["C:\\WINNT"])):
         if rng.random() < 0.4:
             out[k] = rng.choice(choices)
     return out
@@ -436,6 +439,20 @@ def gen_filter(rng, allow_none=True):
     return inc, exc
 
 
+def record_input(rng, words):
+    """A short fixed-layout record with exactly one decodable call and nothing
+    else that decodes (the kind of line a log processor feeds through one
+    long-lived scanner, each line in a buffer of its own)."""
+    w = rng.choice(words) if words else b"alpha"
+    short = base64.b64encode(rng.choice([b"calc", b"whoami", b"net use", w[:9] or b"x"]))
+    call = rng.choice([
+        b'FromBase64String("' + short + b'")', b'Base64Decode("' + short + b'")', b'atob("' + short + b'")',
+        b'"c_lc".replace("_","a")', b'StrReverse("' + w[::-1].replace(b'"', b"") + b'")', b"unescape('%63%61%6c%63')",
+        b'[System.Convert]::FromBase64String("' + short + b'") -bxor 35',
+    ])
+    return b"evt=" + rng.choice([b"exec", b"load", b"eval"]) + b" arg=" + call + b" id=" + str(rng.randrange(1000, 9999)).encode()
+
+
 def same_length_sibling(rng, data, words):
     """An input of exactly the same length whose keyword content differs: one
     word that occurs in data is replaced by another word of the same length (or
@@ -450,6 +467,13 @@ def same_length_sibling(rng, data, words):
         if new == old:
             new = bytes(reversed(old)) if bytes(reversed(old)) != old else b"7" * len(old)
         out = data[: m.start(1)] + new + data[m.end(1) :] if rng.random() < 0.6 else data.replace(b"xor ", b"xar ", 1)
+        return out if len(out) == len(data) and out != data else None
+    tokens = [t for t in (b"FromBase64String", b"Base64Decode", b"atob", b"replace", b"Replace", b"StrReverse", b"unescape", b"FromHexString",
+                          b"CreateObject", b"powershell", b"chr", b"cmd", b"http") if t in data]
+    if tokens and rng.random() < 0.5:
+        # the same record with one call name misspelt: what the decoder for it finds changes, the length does not
+        t = rng.choice(tokens)
+        out = data.replace(t, t[:-1] + (b"q" if t[-1:] != b"q" else b"z"))
         return out if len(out) == len(data) and out != data else None
     present = [w for w in sorted(set(words)) if w and w in data]
     if not present:
@@ -513,6 +537,8 @@ def gen_c09(seed, shipped, tier="quick"):
     corpus = [gen_input(rng, words, hot, exotic=rng.random() < 0.2, bulk=rng.random() < 0.1, sizes=[4200, 4200, 5000, 9000]) for _ in range(ncorp)]
     sibling = None
     if rng.random() < 0.35:
+        if rng.random() < 0.5:
+            corpus[0] = record_input(rng, list(words) + list(hot))
         sib = same_length_sibling(rng, corpus[0], list(words) + list(hot))
         if sib is not None:
             corpus.append(sib)
